@@ -318,6 +318,10 @@ def cold_cases(rnd, quick):
         for d in ((0, 2, 10, 40, 120) if quick else (0, 1, 2, 5, 10, 20, 40, 80, 120, 200, 300)):
             ka, kb = rnd.choice(kinds), rnd.choice(kinds)
             cases.append({"mode": "race", "a": ka(v), "b": kb(v), "delay_ms": d})
+    # defaults changed by the main thread are what other threads see
+    for v in (rnd.sample(vs, 2) if quick else vs):
+        for lvl in (1, 2):
+            cases.append({"mode": "defaults", "version": v, "level": lvl})
     return cases
 
 
